@@ -1199,6 +1199,43 @@ def sources_in_store_order(P):
     return False
 
 
+def output_is_measured_buffer(P, R, w, wi, pvw):
+    """The mappings were measured on the SourceWriter's text buffer, line 0 column 0 being its first character: the generated file
+    has to *start* with exactly that buffer.  Text written to the file before it (a banner, a header comment) moves every generated
+    line while the mappings stay; what follows the buffer (the sourceMappingURL trailer) is harmless."""
+    BUF = "sourcemap_writer::source_writer::SourceWriterBuffers"
+    # the text field of SourceWriterBuffers, by role: the one filled from a String field of the SourceWriter itself
+    text_f = set()
+    for g in P.fns.values():
+        if g.self_adt == SW and not g.derived:
+            for n in g.walk():
+                if n.get("k") == "Struct" and "rest" not in n and norm(n.get("adt", "")) == BUF:
+                    for f_ in n["fields"]:
+                        e_ = strip(f_["e"])
+                        while isinstance(e_, dict) and e_.get("k") == "Call" and (call_name(e_) or "").endswith(("mem::take", "mem::replace")) and e_["args"]:
+                            e_ = strip(e_["args"][0])
+                        if isinstance(e_, dict) and e_.get("k") == "Field" and norm(e_.get("adt")) == SW and peel_ty(e_.get("t", "")) == "alloc::string::String":
+                            text_f.add(f_["name"])
+    text_f = text_f or {"buffer"}
+    handles = {b_["local"] for n in wi.walk() if n.get("k") == "Let" and "init" in n and has_call(pvw.atoms(n["init"]), "std::fs::File::create")
+               for b_ in subnodes(n["pat"]) if b_.get("k") == "Binding"}
+    writes = [n for n in wi.walk() if n.get("k") == "MethodCall" and n.get("method") in ("write", "write_all", "write_fmt", "write_str")
+              and any(y.get("k") == "Path" and y.get("local") in handles for y in subnodes(n["recv"]))]
+    carries = [any(has_field(pvw.atoms(a_), BUF, f_) for a_ in n["args"] for f_ in text_f) for n in writes]
+    if not handles or True not in carries:
+        R.undecided("R06-e", "output-is-measured-buffer", "how the generated text reaches the output file was not recognised", loc=w.loc())
+        return
+    before = writes[:carries.index(True)]
+    first = writes[carries.index(True)]
+    if before:
+        what = sorted({a[1] for n in before for a_ in n["args"] for a in pvw.atoms(a_) if a[0] == "param"}) or ["a constant text"]
+        R.violated("R06-e", "output-is-measured-buffer", "%s writes %s to the generated file before the buffer the mappings were measured on: every "
+                   "generated line moves down by the lines of that text while the mappings still count from the buffer's first line, so each segment "
+                   "points above its token" % (w.name, ", ".join("`%s`" % x for x in what)), loc=w.loc())
+    else:
+        R.holds("R06-e", "output-is-measured-buffer", "the generated file starts with the buffer the mappings were measured on", loc=w.loc())
+
+
 def r06e(P, R):
     """sources agreement: the index mapper and the `sources` list come from one FileMap; sources relative to the map's file"""
     rg0 = P.fn("nitrogql_cli::generate::run_generate")
@@ -1500,6 +1537,7 @@ def r06e(P, R):
             R.undecided("R06-e", "sources-order", "`sources` is not computed by one zip of the index table with the file store", loc=w.loc())
         else:
             R.holds("R06-e", "sources-order", "`sources` keeps file-store order (indices are positions in it)", loc=w.loc())
+    output_is_measured_buffer(P, R, w, wi, pvw)
     psm = P.fn("sourcemap_writer::source_writer::print_source_map_json")
     pvp = Prov(psm)
     rel = [c for c in psm.walk() if c.get("k") == "Call" and (call_name(c) or "").endswith("relative_path::relative_path")]
